@@ -62,7 +62,7 @@ def generate(rng, tier):
         deg = {"lin": 1, "nat": 1, "par": 2}.get(kind, 3)
         nmin = {"lin": 2, "par": 3, "nak": 4}.get(kind, 3)
         n = 3 if kind == "par" else rng.choice([nmin, nmin, nmin + 1, nmin + 3, 9])
-        xs = gen.axis_q(rng, n, rng.choice(["uniform", "geometric", "random", "dyadic", "mesh64", "clustered", "evenish"]))
+        xs = gen.axis_q(rng, n, rng.choice(["uniform", "geometric", "random", "dyadic", "mesh64", "clustered", "evenish", "nearly_even", "nearly_even", "indexlike"]))
         polys = [rpoly(rng, deg) for _ in range(L)]
         if rowwise:
             per_row = [rpoly(rng, deg) for _ in range(trailing[0])]
